@@ -27,6 +27,9 @@ var symAlt = func() []map[string]string {
 		{"<L>": "ª", "<N>": "Ⅷ", "<S>": "\u2028"},
 		{"<L>": "日", "<N>": "٣", "<S>": "\u3000"},
 		{"<L>": "だ", "<N>": "²", "<S>": "™"},
+		// code points with a special role somewhere: replacement character, byte order mark, line / paragraph separators, zero width
+		// and soft hyphen, private use, the last code point, a combining mark
+		{"<S>": "\ufffd"}, {"<S>": "\ufeff"}, {"<S>": "\u0085"}, {"<S>": "\u2029"}, {"<S>": "\u200b"}, {"<S>": "\u00ad"}, {"<S>": "\ue000"}, {"<S>": "\U0010ffff"}, {"<S>": "\u0301"},
 	}
 	// letters (and symbols) whose code point has the low byte of a character the grammar gives a meaning to
 	for _, r := range "ТѠШЩЮЯћѝѻѽЬнСѾџРЉЊЍ" {
